@@ -1,0 +1,9 @@
+//go:build verif
+
+// Contracts for package token (property C16), checked by /verif/govc. Comments only.
+
+package token
+
+//@ func Value
+//@   trusted
+//@   pure
